@@ -370,6 +370,17 @@ def _check_closure(run, f, outer):
             ok = ok and want_tgt in tgt
             same = lat_src is not None and tr[0] in atoms_of(lat_src)
             ok = ok and same
+            # astropy's transform_to takes a frame *object*; handed the frame class it refuses every call
+            # (ConvertError), so the sampler returns no pixel at all (F14).  Siblings must agree on this.
+            tgt_t = tr[0][2][0] if tr[0][2] else None
+            if ok and tgt_t is not None:
+                if tgt_t[0] == "call":
+                    run.holds("C11.R5", f, node, "%s: transform_to is handed a frame instance (%s)" % (name, tgt[:40]), **facts)
+                elif show(tgt_t) == want_tgt or show(tgt_t).endswith("." + want_tgt):
+                    run.violated("C11.R5", f, node, "%s: transform_to is handed the frame class %s itself, not an instance: astropy refuses the conversion "
+                                 "(ConvertError) on every call, no sky point gets a pixel" % (name, show(tgt_t)), kind="frame-class-not-instance", **facts)
+                else:
+                    run.undecided("C11.R5", f, node, "%s: cannot tell whether transform_to's argument %s is a frame instance" % (name, tgt[:60]), **facts)
         if ok:
             run.holds("C11.R5", f, node, "%s: indices use the %s coordinates of ICRS(lon, lat).transform_to(...)" % (name, frame), **facts)
         else:
